@@ -168,6 +168,50 @@ def honesty_sweep(ctx, N):
                         cname, method, i, float(np.ravel(err)[i]), float(np.ravel(est)[i])), dict(par, x=x.tolist(), method=method, cls=cname))
 
 
+def single_step_cases(ctx):
+    """A single fixed step (one estimate, no extrapolation) at points where the wanted derivative VANISHES: the computed value is then pure
+    truncation error (h f''/2 for the first-order one-sided rules), and the reported estimate -- (|value| eps + |step|) x 12.7 x |rule| for a
+    single estimate -- must still cover it.  (Distinct from the recorded finding honesty:single-estimate, which is about large derivatives
+    with the default step sequence; here the estimate of the unchanged code is conservative.)"""
+    import numdifftools as nd
+    cases = [('np.cos(x)', lambda x: np.cos(x), 0.0, 0.0, 1.0), ('(x-1)**2 + 0.3*(x-1)**3', lambda x: (x - 1) ** 2 + 0.3 * (x - 1) ** 3, 1.0, 0.0, 2.0),
+             ('np.exp(x) - x', lambda x: np.exp(x) - x, 0.0, 0.0, 1.0), ('np.cosh(2*x)', lambda x: np.cosh(2 * x), 0.0, 0.0, 4.0)]
+    for src, f, x0, exact, S in cases:
+        for method, order in (('forward', 1), ('backward', 1), ('forward', 2), ('central', 2)):
+            for h in (1e-3, 1e-5, 1e-6, 1e-7):
+                for kw in ({'step': h}, {'step': nd.MinStepGenerator(base_step=h, num_steps=1)}):
+                    try:
+                        got, info = nd.Derivative(f, n=1, method=method, order=order, full_output=True, **kw)(x0)
+                    except Exception:   # noqa
+                        continue
+                    ctx.count(1, ('honesty-single-step', method, order))
+                    err, est = abs(float(got) - exact), float(np.ravel(info.error_estimate)[0])
+                    if not (np.isfinite(est) and est >= 0 and err <= K_HONEST * est + FLOOR_N[1] * S):
+                        return ctx.violation('honesty:single-step:zero-derivative',
+                                             'nd.Derivative(lambda x: %s, n=1, method=%r, order=%d, step=%s, full_output=True)(%r): the derivative is 0, the value %.3g is truncation error, error_estimate %.3g' % (
+                                                 src, method, order, 'h' if 'base_step' not in repr(kw) and not isinstance(kw['step'], object.__class__) else repr(h), x0, float(got), est),
+                                             {'f': src, 'x': x0, 'method': method, 'order': order, 'h': h, 'step': 'scalar' if isinstance(kw['step'], float) else 'MinStepGenerator(base_step=h, num_steps=1)',
+                                              'value': float(got), 'exact': exact, 'error_estimate': est})
+    # gradient at an optimum: every component vanishes
+    def ros(x):
+        return (1 - x[0]) ** 2 + 10.0 * (x[1] - x[0] ** 2) ** 2
+    for method, order in (('forward', 1), ('backward', 1), ('central', 2)):
+        for h in (1e-4, 1e-6, 1e-7):
+            try:
+                got, info = nd.Gradient(ros, method=method, order=order, step=h, full_output=True)(np.array([1.0, 1.0]))
+            except Exception:   # noqa
+                continue
+            ctx.count(1, ('honesty-single-step', 'Gradient', method))
+            err = np.abs(np.ravel(got))
+            est = np.ravel(np.broadcast_to(np.asarray(info.error_estimate).reshape(-1)[:2] if np.size(info.error_estimate) >= 2 else np.asarray(info.error_estimate), (2,)))
+            if not np.all(err <= K_HONEST * est + FLOOR_N[1] * 100.0):
+                return ctx.violation('honesty:single-step:zero-derivative',
+                                     'nd.Gradient(rosenbrock-like, method=%r, order=%d, step=%r, full_output=True)([1, 1]): the gradient is 0, the values %r are truncation error, error_estimate %r' % (
+                                         method, order, h, np.ravel(got).tolist(), est.tolist()),
+                                     {'f': '(1-x0)**2 + 10 (x1-x0**2)**2', 'x': [1.0, 1.0], 'method': method, 'order': order, 'step': h, 'value': np.ravel(got).tolist(), 'error_estimate': est.tolist()})
+    return False
+
+
 def nan_inside_cases(ctx):
     """one stencil point of one trial step (not the largest) hits a removable singularity exactly: the estimates contain NaN in the
     middle of the step sequence.  The result is finite, so its error estimate must be finite, non-negative and honest."""
@@ -356,6 +400,7 @@ def run(ctx):
     ctx.cov['correspondence_disagreements'] = nbad
     ctx.cov['skipped'] = skipped
     nan_inside_cases(ctx)
+    single_step_cases(ctx)
     honesty_sweep(ctx, ctx.n(15, 300) if not ctx.broken else 120)
     ctx.assumptions += ['PARTIAL: proved = the estimate is non-negative for every input and branch and belongs to the returned value (same index); "true error <= K x estimate + floor" is NOT a theorem for any finite-sample estimator: explored by the sweep with K = 1e4, floor = 1e-9 x local scale (calibrated on the unchanged tree, worst observed ratio 3.6e2)',
                         'every constant of the estimator (12.7062047361747, EPS*10, tol*10, trim 10, 1.5 IQR, 1e-8, the tie rule) is pinned in the model: changing one breaks the bit-exact tie',
